@@ -1462,6 +1462,9 @@ def _o_exact(case):
                     if not _refusal_ok(np, e, singular=_singular_exact(b), shapes=(a1.shape, a2.shape)):
                         v.append(("C15/displacement/rejects-valid-input", f"op `{op}`: {type(e).__name__}: {e}"))
                     continue
+                if _singular_exact(b):
+                    v.append(("C15/displacement/singular-box-accepted", f"op `{op}`: a box with determinant 0 must be refused (LinAlgError)"))
+                    continue
                 if np.asarray(res).size == 0:
                     continue
                 diff = np.broadcast_to(a2.astype(float) - a1.astype(float), res.shape)
@@ -1518,6 +1521,9 @@ def _o_exact(case):
                     if not _refusal_ok(np, e, singular=_singular_exact(b)):
                         v.append(("C15/move_inside_box/rejects-valid-input", f"op `{op}`: {type(e).__name__}: {e}"))
                     continue
+                if _singular_exact(b):
+                    v.append(("C15/move_inside_box/singular-box-accepted", f"op `{op}`: a box with determinant 0 must be refused (LinAlgError)"))
+                    continue
                 ra, rr = a.reshape(-1, a.shape[-2] if a.ndim > 1 else 1, 3), np.asarray(res).reshape(-1, a.shape[-2] if a.ndim > 1 else 1, 3)
                 for mi in range(len(ra)):
                     bx = _box_exact(b if b.ndim == 2 else b[mi])
@@ -1541,6 +1547,9 @@ def _o_exact(case):
                     if not _refusal_ok(np, e, singular=_singular_exact(b)):
                         v.append(("C15/coord_to_fraction/rejects-valid-input", f"op `{op}`: {type(e).__name__}: {e}"))
                     continue
+                if _singular_exact(b):
+                    v.append(("C15/coord_to_fraction/singular-box-accepted", f"op `{op}`: a box with determinant 0 must be refused (LinAlgError)"))
+                    continue
                 if not np.array_equal(res, a):
                     v.append(("C15/coord_to_fraction/not-inverse-of-fraction_to_coord", f"op `{op}`: {np.asarray(res).tolist()}"))
             elif w[0] == "rpbc":
@@ -1551,6 +1560,9 @@ def _o_exact(case):
                 except Exception as e:  # noqa: BLE001
                     if not _refusal_ok(np, e, singular=_singular_exact(b)):
                         v.append(("C15/remove_pbc_from_coord/rejects-valid-input", f"op `{op}`: {type(e).__name__}: {e}"))
+                    continue
+                if _singular_exact(b):
+                    v.append(("C15/remove_pbc_from_coord/singular-box-accepted", f"op `{op}`: a box with determinant 0 must be refused (LinAlgError)"))
                     continue
                 if a.shape[-2] == 0:
                     if np.asarray(res).shape != a.shape:
@@ -1612,6 +1624,8 @@ def _o_exact(case):
                 a, b = np_arr(dec_arr(w[2]), "float64"), _npbox(np, dec_box(w[3]), "float64")
                 amount = 1 if w[4] == "-" else int(w[4])
                 if amount < 0:
+                    if a.shape[-2] == 0:
+                        continue                 # nothing to repeat: an empty array stays empty
                     try:
                         struc.repeat_box_coord(a, b, amount)
                         v.append(("C15/repeat_box_coord/negative-amount-accepted", f"op `{op}`"))
